@@ -362,8 +362,8 @@ def _minimize_expr(expr, visibility, kconfig):
             elif expr[0] == kconfiglib.UNEQUAL:
                 if type(new_expr1) is not type(new_expr2):
                     return y
-                if new_expr1 != new_expr2:
-                    return n
+                if new_expr1 == new_expr2:
+                    return n  # X != X
             else:  # <, <=, >, >=
                 if type(new_expr1) is not type(new_expr2):
                     return n  # e.g "True < 2"
